@@ -108,6 +108,18 @@ def r14_1(ctx):
                 if how == 'append' and any(x.id in r for x in cfg.node_containing(n))]
     ctx.ob('R14.1', 'free:failed-trylock-only-defers', not touched and bool(deferred), fr, None,
            'when the lock is taken the block is only appended to _pending_free_blocks')
+    # free() can run in the thread that is inside malloc (a finalizer run by the garbage collector): the try-lock
+    # must fail then, i.e. the lock must not be re-entrant
+    init = ci.methods['__init__']
+    mk = [(dn, v) for (dn, t, v) in q.assigns(init, 'self._lock')]
+    q.need(mk, 'Heap.__init__ does not create self._lock')
+    for (dn, v) in mk:
+        kind = init.canon(v.func) if isinstance(v, ast.Call) else ast.unparse(v)
+        ok = kind in ('threading.Lock', '_thread.allocate_lock', '_thread.LockType')
+        ctx.ob('R14.1', 'lock-is-not-reentrant', ok, init, dn,
+               'self._lock = %s()' % kind if ok else
+               'self._lock = %s(): free() called by a finalizer while the same thread is inside malloc acquires a '
+               're-entrant lock and mutates the free lists under malloc\'s feet instead of deferring' % kind)
     # pending list: append in free, pop in the drain, nothing else
     n_p = 0
     for fi in ci.methods.values():
@@ -374,6 +386,7 @@ def run(ctx):
 
 _H = 'billiard/heap.py'
 MUTANTS = [
+    ('reentrant-heap-lock', _H, "        self._lock = threading.Lock()", "        self._lock = threading.RLock()", 'R14.1'),
     ('free-without-lock', _H, "        if not self._lock.acquire(False):\n            # can't acquire the lock right now, add the block to the list of\n            # pending blocks to free\n            self._pending_free_blocks.append(block)\n        else:\n            # we hold the lock\n            try:\n                self._free_pending_blocks()\n                self._allocated_blocks.remove(block)\n                self._free(block)\n            finally:\n                self._lock.release()",
      "        self._free_pending_blocks()\n        self._allocated_blocks.remove(block)\n        self._free(block)", 'R14.1'),
     ('release-not-in-finally', _H, "            try:\n                self._free_pending_blocks()\n                self._allocated_blocks.remove(block)\n                self._free(block)\n            finally:\n                self._lock.release()",
